@@ -36,7 +36,15 @@ def materialise(root, edits):
             s = open(p, encoding="utf-8").read()
             if s.count(old) < 1 or (cnt == 1 and s.count(old) != 1):
                 raise LookupError(f"{rel}: anchor text occurs {s.count(old)} times: {old[:50]!r}")
-            s = s.replace(old, new) if cnt == 0 else s.replace(old, new, cnt)
+            if cnt == 0:
+                s = s.replace(old, new)
+            elif cnt < 0:          # -k: only the k-th occurrence
+                idx = -1
+                for _ in range(-cnt):
+                    idx = s.index(old, idx + 1)
+                s = s[:idx] + new + s[idx + len(old):]
+            else:
+                s = s.replace(old, new, cnt)
             open(p, "w", encoding="utf-8").write(s)
             import warnings
             with warnings.catch_warnings():
